@@ -66,6 +66,16 @@ for cap in (1, 2, 3, 4):
      ("ARG", "async", "u8", "unit"),
     ])
 
+# ---- a queue larger than a byte can count ------------------------------------------------------------
+iface("q300", "E", 300, "basic", [
+ ("*IDN?", "async", "-", "const:str:" + hx("Q")),
+ ("OK", "async", "-", "unit"),
+ ("VAL?", "sync", "-", "const:u8:7"),
+ ("FAIL", "async", "-", "err:-200"),
+ ("CUST", "async", "-", "errc:42:" + hx("custom")),
+ ("ARG", "async", "u8", "unit"),
+])
+
 # ---- the q3 commands on an interface whose own handlers carry the names of the built-in ones -------------
 # (the harness names the last three handlers system_error_count, system_error_next, system_version)
 iface("k1", "SE", 3, "basic", [
